@@ -5,6 +5,7 @@ import PqV.Lemmas.KZigzag
 import PqV.Lemmas.KHybrid
 import PqV.Lemmas.KDelta
 import PqV.Lemmas.KPlain
+import PqV.Lemmas.KDeltaLoop
 /-!
 # C11 — primitive codecs agree with the specification on their whole bounded domain
 
@@ -133,6 +134,34 @@ theorem unpackByteArray_roundtrip (items : List (List Nat)) (hl : ∀ it ∈ ite
 theorem writerPackBools_is_spec (vals : List Nat) (hb : ∀ v ∈ vals, v < 2) :
     writerPackBools vals = packLE 1 (vals ++ List.replicate (8 - vals.length % 8) 0) :=
   writerPackBools_eq vals hb
+
+/-- **`delta_binary_unpack`, one miniblock (partial)**.  FULL statement wanted: on every well-formed
+    DELTA_BINARY_PACKED stream with miniblock widths ≤ 28 the kernel's output equals `Spec.decodeDelta`.
+    PROVED: the loop body for one miniblock of width 1..28 with at least two values still to come and
+    the output sized to the announced count — the `vpm` deltas are unpacked behind the values written
+    so far (those that do not fit are dropped), the j-loop replaces them in place by the running
+    values `chainOut` (each = previous + min_delta + delta, 64-bit wrap, stored at item width) and the
+    loop continues with `vpm` fewer values or stops after the last one; also the width-0 j-loop
+    (`deltaZero_run`).  MISSING: the induction over miniblocks / blocks, the header, and the
+    identification of `chainOut` with the specification's values modulo 2^bits; those parts are tied by
+    the exhaustive width × count lattice of the correspondence only. -/
+theorem deltaMiniblock_step_partial (buf : List Nat) (hbytes : ∀ b ∈ buf, b < 256) (ib vpm : Nat) (hib : 32 ≤ ib) (md : Int)
+    (bwLoc k i loc w : Nat) (o : DOut) (value : Int) (c : Nat)
+    (hw : buf[bwLoc + i]? = some w) (hw1 : 1 ≤ w) (hw28 : w ≤ 28)
+    (hbuf : loc + (vpm * w + 7) / 8 ≤ buf.length) (hc : 2 ≤ c) (hroom : o.pos + c = o.slots.size) :
+    ∃ o', o'.L = o.L.take o.pos
+              ++ chainOut ib md value (((List.range vpm).map (fun j => bitField w j (streamOf buf loc))).take (min vpm c))
+              ++ o.L.drop (o.pos + min vpm c) ∧
+      o'.pos = o.pos + min vpm c ∧ o'.slots.size = o.slots.size ∧
+      deltaBlockLoop buf ib vpm md bwLoc (k + 1) i loc o value (c : Int) =
+        (if c ≤ vpm then
+          .ok (loc + (vpm * w + 7) / 8, o',
+            chainVal md value (((List.range vpm).map (fun j => bitField w j (streamOf buf loc))).take (min vpm c)),
+            (c : Int) - (min vpm c : Nat), true)
+        else deltaBlockLoop buf ib vpm md bwLoc k (i + 1) (loc + (vpm * w + 7) / 8) o'
+            (chainVal md value (((List.range vpm).map (fun j => bitField w j (streamOf buf loc))).take (min vpm c)))
+            ((c : Int) - (min vpm c : Nat))) :=
+  deltaBlockLoop_step buf hbytes ib vpm hib md bwLoc k i loc w o value c hw hw1 hw28 hbuf hc hroom
 
 -- non-vacuity: concrete instances of the hypotheses
 example : unpackByteArray ([9] ++ packByteArray [[1, 2], [], [7]] ++ [0]) 1 3 = .ok [[1, 2], [], [7]] := by decide
